@@ -408,6 +408,21 @@ static void process_new_records(struct ctx *c, const char *what, int inject_j, s
                     FAILP(true, "flowdef/stale", "%s: sink %d received a buffer but the definition it last accepted differs from p%d:%s's current output definition", what, r->sink, o, zoo[u->type].name);
                 break;
             }
+        /* ... and on an output of a duplicating pipe: the definition in force on the pipe's input (the outputs forward it unchanged),
+         * also when the output was connected after the definition arrived */
+        if (ORACLE_PROTO && !c->ret && seen_accept && s->flow_def != NULL)
+            for (int o = 0; o < c->np && !c->ret; o++) {
+                struct zpipe *u = &c->p[o];
+                if (u->type != T_DUP || !u->upipe || pipe_dead(c, o) || !u->has_def) continue;
+                for (int k = 0; k < MAXSUB; k++) {
+                    if (!u->sub[k].alive || !u->sub[k].has_out || u->sub[k].sink != r->sink) continue;
+                    if (o != 0) continue;      /* (further down the chain the definition may come from the pipe before or from the application) */
+                    struct uref *want = mk_flow_def(c, u->defv);
+                    if (want && want->udict && s->flow_def->udict && udict_cmp(want->udict, s->flow_def->udict))
+                        FAILP(true, "flowdef/stale-dup-output", "%s: output %d of p%d:dup received a buffer under a definition that is not the one in force on the pipe's input", what, k, o);
+                    uref_free(want);
+                }
+            }
         c->delivered++;
         if (!(r->sink == c->sinkid[0] || r->sink == c->sinkid[1])) continue;
         ndeliv++;
@@ -654,10 +669,19 @@ static void op_sub(struct ctx *c)
     int j = tp_pick(&c->t, c->np);
     struct zpipe *z = &c->p[j];
     if (!z->upipe || !z->held || z->type != T_DUP) return;
-    int k = tp_u8(&c->t) % MAXSUB;
+    uint8_t kb = tp_u8(&c->t);
+    int k = kb % MAXSUB;
+    bool defer = (kb & 0x80) != 0;      /* the output is allocated now and connected by a later operation */
     char what[64];
-    c->hash = vp_hash_mix(c->hash, 0x700 + j * 4 + k);
-    if (z->sub[k].alive) {
+    c->hash = vp_hash_mix(c->hash, 0x700 + j * 4 + k + (defer ? 0x40 : 0));
+    if (z->sub[k].alive && !z->sub[k].has_out) {
+        /* an output that was allocated unconnected gets its recording sink now: it must be served like the others from here on */
+        snprintf(what, sizeof what, "set_output(p%d.sub%d, own sink)", j, k);
+        R("  %s\n", what);
+        int sid; struct upipe *sk = pfx_sink_alloc(&c->pfx, &sid);
+        if (sk) { pfx_sink(&c->pfx, sid)->uref_policy = PFX_SINK_KEEP; upipe_set_output(z->sub[k].upipe, sk); upipe_release(sk); z->sub[k].sink = sid; z->sub[k].has_out = true; }
+        c->classes |= 1u << CL_SUBCHURN;
+    } else if (z->sub[k].alive) {
         snprintf(what, sizeof what, "release(p%d.sub%d)", j, k);
         R("  %s\n", what);
         upipe_release(z->sub[k].upipe);
@@ -674,8 +698,10 @@ static void op_sub(struct ctx *c)
         if (!sub) return;
         z->sub[k].upipe = sub; z->sub[k].probe = pid; z->sub[k].alive = true; z->sub[k].hs = H_NONE;
         /* each output gets its own recording sink */
-        int sid; struct upipe *sk = pfx_sink_alloc(&c->pfx, &sid);
-        if (sk) { pfx_sink(&c->pfx, sid)->uref_policy = PFX_SINK_KEEP; upipe_set_output(sub, sk); upipe_release(sk); z->sub[k].sink = sid; z->sub[k].has_out = true; }
+        int sid = -1; struct upipe *sk = defer ? NULL : pfx_sink_alloc(&c->pfx, &sid);
+        z->sub[k].has_out = false;
+        if (defer) R("    (left unconnected)\n");
+        else if (sk) { pfx_sink(&c->pfx, sid)->uref_policy = PFX_SINK_KEEP; upipe_set_output(sub, sk); upipe_release(sk); z->sub[k].sink = sid; z->sub[k].has_out = true; }
     }
     process_new_records(c, what, j, NULL, false, -1, false);
     end_op(c, what);
